@@ -1007,7 +1007,17 @@ def td_replay_job(job):
     res = [None] * len(job["cases"])
     for (P, Min, Max, W, cum), lst in groups.items():
         dist0 = base.TrainableDist.create(delay=Min / GRID, min=Min / GRID, max=Max / GRID, interp="zoh")
-        assert dist0.window(GRID / P) == cum - W, (dist0.window(GRID / P), cum, W)
+        ext_real = int(dist0.window(GRID / P))
+        if ext_real != cum - W:
+            # rex extends the window by a different number of entries than the model's ceil((Max-Min)/P): build the extended window
+            # exactly as apply_window would with rex's own extension (the last W+ext messages that arrived under the minimal delay)
+            def consumed(d):
+                c_ = d["c"]
+                ok = [i for i, s in enumerate(d["sent"]) if (s + c_["Min"] < c_["ts"] if c_["skip"] else s + c_["Min"] <= c_["ts"])]
+                ok = ok[-(W + ext_real):] if (W + ext_real) > 0 else []
+                return [-1] * (W + ext_real - len(ok)) + ok
+
+            lst = [(i, dict(d, extwin=consumed(d), ext_real=ext_real)) for i, d in lst]
 
         def one(seq, ts_sent, ts_recv, dval, ts):
             dd = dist0.replace(alpha=dist0.get_alpha(dval))
@@ -1024,7 +1034,7 @@ def td_replay_job(job):
         oseq, odata, osent = f(seqs, sent, recv, dval, ts)
         oseq, odata = onp.asarray(oseq), onp.asarray(odata)
         for k, (i, d) in enumerate(lst):
-            res[i] = dict(seq=[int(x) for x in oseq[k]], data=[int(round(float(x))) for x in odata[k]], n=int(oseq.shape[1]))
+            res[i] = dict(seq=[int(x) for x in oseq[k]], data=[int(round(float(x))) for x in odata[k]], n=int(oseq.shape[1]), ext_real=ext_real)
     return dict(results=res)
 
 
@@ -1063,7 +1073,7 @@ def c10(tier, seed):
             cls = "other"
             if c["skip"] and d["tie"]:
                 cls = "skip_tie"
-            elif d["idxmin"] < 0:
+            elif d["idxmin"] < 0 and r.get("ext_real", d["ext"]) == d["ext"]:
                 cls = "window_extension_too_small"
             rep.violation(dict(kind="zoh_differs_from_static", cls=cls), dict(kind="td_case", case=d, got=r),
                           text=f"apply_delay gives window {got}, a static delay of {d['deff']} gives {d['static']} (class {cls}): case {c}, sends at {d['sent']}")
